@@ -48,6 +48,13 @@ MUTATING_METHODS = {
     'fill', 'resize', 'put', 'itemset', 'shuffle'}
 
 
+IMPURE_CALLS = {
+    'choice', 'permutation', 'integers', 'randint', 'random', 'shuffle',
+    'normal', 'uniform', 'sample', 'choices', 'mkdtemp', 'mkstemp',
+    'mkstemp_clean', 'time', 'now', 'get_timestamp', 'getpid', 'urandom',
+    'uuid4', 'perf_counter'}
+
+
 class ReachingDefs(object):
 
     def __init__(self, fi):
@@ -136,7 +143,7 @@ class ReachingDefs(object):
                             sub.func, ast.Attribute):
                         if sub.func.attr in MUTATING_METHODS:
                             b = _base_name(sub.func.value)
-                            if b:
+                            if b and b not in self.fi.module.imports:
                                 self._mut(n.id, b, sub, sub.func.attr)
 
     def _target(self, nid, leaf, kind, value, path, stmt):
@@ -306,10 +313,18 @@ class Expander(object):
                                              depth, stack)
                 if st is not None:
                     return st
+            kws = tuple(sorted((kw.arg or '**', X(kw.value))
+                               for kw in e.keywords))
+            fn = e.func
+            nm = fn.attr if isinstance(fn, ast.Attribute) else (
+                fn.id if isinstance(fn, ast.Name) else None)
+            if nm in IMPURE_CALLS:
+                # two calls of a sampler / clock / temp-name generator are
+                # not the same value: the term carries its call site
+                kws = kws + (('@site', ('const', f'{e.lineno}:'
+                                        f'{e.col_offset}')),)
             return ('call', X(e.func),
-                    tuple(X(a) for a in e.args),
-                    tuple(sorted((kw.arg or '**', X(kw.value))
-                                 for kw in e.keywords)))
+                    tuple(X(a) for a in e.args), kws)
         if isinstance(e, ast.BinOp):
             return ('binop', type(e.op).__name__, X(e.left), X(e.right))
         if isinstance(e, ast.UnaryOp):
